@@ -58,6 +58,19 @@ def lines(ctx):
                 for n in range(1, 5):
                     for toks in after:
                         out.append(exec_line(sv, fl, scb, st, b"", n, toks, weight=(1000 if sv == 3 else None)).replace("EXEC ", "EXECF ", 1))
+    # the taproot key-path session (`<output key> OP_CHECKSIG` under its own signature version): no operation limit applies there, however
+    # many operations exec runs; every token of the vocabulary; long lists
+    kp = R.push(b"\x44" * 32) + bytes([0xac])
+    for fl in (R.STD, 0):
+        for n in (0, 1):
+            for t in vocab:
+                out.append(exec_line(2, fl, kp, [b"\x01" * 64], b"", n, [t]))
+            for k in (200, 201, 202, 250):
+                out.append(exec_line(2, fl, kp, [b"\x01" * 64], b"", n, ["OP_NOP"] * k + ["OP_DUP"]))
+                out.append(exec_line(2, fl, kp, [b"\x01" * 64], b"", n, ["OP_1", "OP_IF"] + ["OP_DUP", "OP_DROP"] * (k // 2) + ["OP_ENDIF"]))
+    for sv in (0, 1, 3):
+        for k in (200, 201, 202):
+            out.append(exec_line(sv, R.STD, b"\x51", [], b"", 0, ["OP_NOP"] * k + ["OP_1"], weight=(1000 if sv == 3 else None)))
     # on generated deep sessions
     base = ctx.driver_gen(["run", ctx.seed + 1600, 300 if quick else 5000, 60, 0])
     for l in base:
